@@ -67,6 +67,10 @@ def cases(tier, seed):
         out.append({"id": "routing-" + name, "kind": "routing", "fv": fv, "seed": seed, "sim": True})
     for fv, dev in e1.family_members(1 if tier == "quick" else 2)[0]:
         out.append({"id": "routing-" + e1.fv_id(fv), "kind": "routing", "fv": fv, "seed": seed, "sim": False})
+    # period-dependent stochastic transitions with _period NOT first and more periods than labels of the first dependency
+    for extra in ({"h": "hp", "T": 4}, {"h": "dph", "T": 4}, {"h": "hp", "T": 6}):
+        fv = family.normalise(dict(family.BASE, **extra))
+        out.append({"id": "routing-" + e1.fv_id(fv), "kind": "routing", "fv": fv, "seed": seed, "sim": False})
     # one Python callable registered under several function names (each name has its own parameter values)
     out.append({"id": "routing-shared-callable", "kind": "routing", "fv": dict(family.BASE), "seed": seed, "sim": True, "shared_callable": True})
     return out
